@@ -36,11 +36,11 @@ theorem legacy_torn_read_with_rescan_patch (ops₁ ops₂ : List Op) (hwf : OpsW
   have hwf2 : OpsWF ops₂ := fun id d hm => hwf id d (List.mem_append.mpr (Or.inr hm))
   have h1 := runL_invariant legacyBackend LInv
     (fun ch s s' d hI hd hu => linv_store ch s s' d hI hd hu)
-    (fun d rest s s' hI hr => linv_revert d rest s s' hI hr)
+    (fun d rest s s' hI hr => linv_revert true d rest s s' hI hr)
     ops₁ (Node.init legacyBackend) linv_init hwf1
   have h2 := runL_invariant legacyBackend LInv
     (fun ch s s' d hI hd hu => linv_store ch s s' d hI hd hu)
-    (fun d rest s s' hI hr => linv_revert d rest s s' hI hr)
+    (fun d rest s s' hI hr => linv_revert true d rest s s' hI hr)
     ops₂ nl₁ h1 hwf2
   exact linv_tornStorage nl₁.chain nl₂.chain nl₁.st nl₂.st h1 h2 n hsame a k
 
@@ -57,10 +57,10 @@ theorem casm_migration_with_patch_example :
       (fun nd => (nd.readCasm (newBackend cfg) (.num 0) 0x51, nd.readCasm (newBackend cfg) (.num 1) 0x51,
                   nd.readCasm (newBackend cfg) .head 0x51)) =
       some (some (.ok 0xa1), some (.ok 0xabc), some (.ok 0xabc)) ∧
-    (run (legacyBackendOf true) (Node.init (legacyBackendOf true)) ops).map
-      (fun nd => (nd.readCasm (legacyBackendOf true) (.num 1) 0x51, nd.readCasm (legacyBackendOf true) .head 0x51)) =
+    (run (legacyBackendOf true true) (Node.init (legacyBackendOf true true)) ops).map
+      (fun nd => (nd.readCasm (legacyBackendOf true true) (.num 1) 0x51, nd.readCasm (legacyBackendOf true true) .head 0x51)) =
       some (some (.ok 0xabc), some (.ok 0xabc)) ∧
-    (run (legacyBackendOf true) (Node.init (legacyBackendOf true)) (ops ++ [.revert])).map
-      (fun nd => nd.readCasm (legacyBackendOf true) .head 0x51) = some (some (.ok 0xa1)) := by decide
+    (run (legacyBackendOf true true) (Node.init (legacyBackendOf true true)) (ops ++ [.revert])).map
+      (fun nd => nd.readCasm (legacyBackendOf true true) .head 0x51) = some (some (.ok 0xa1)) := by decide
 
 end Juno.C03.Patch
